@@ -5,6 +5,7 @@
   filters and the pagination arithmetic are covered by the differential fuzz only (DESIGN §6 C01).
 -/
 import Distill.Proofs.Total
+import Distill.Props.FiltersProps
 import Distill.Gen.Inventory
 import Distill.Gen.Funcs
 import Distill.Proofs.PathPattern
